@@ -65,3 +65,10 @@ func VerifC18_BatchReleaseFinalizer() {
 // phase must not become Completed while the control plane's Finalize still reports an error of any kind (plain,
 // retry, bad request) — the executor obligation of C11 run under C18 as well.
 func VerifC18_CompletedOnlyAfterFinalizeSucceeded() { VerifC11_ExecutorRound_Finalizing() }
+
+// Phase Completed is the licence to drop the release finalizer: no round, whatever phase it starts in and whatever
+// workload event arrives (the target workload having gone included), enters Completed without a successful Finalize
+// (C11.completedOnlyAfterFinalizeSucceeded of the executor round relation).
+func VerifC18_CompletedOnlyAfterFinalizeSucceeded_Preparing()   { VerifC11_ExecutorRound_Preparing() }
+func VerifC18_CompletedOnlyAfterFinalizeSucceeded_Progressing() { VerifC11_ExecutorRound_Progressing() }
+func VerifC18_CompletedOnlyAfterFinalizeSucceeded_Initial()     { VerifC11_ExecutorRound_Initial() }
